@@ -15,6 +15,7 @@ import (
 // VerifEnv wires the real TapeManager, MetadataPersister and Operations over the ghost drive (M2) and
 // the symbolic index table (M1), the way examples/full wires them over a file and SQLite.
 type VerifEnv struct {
+	entryFormat tar.Format // format of the next entries added (zero: PAX)
 	Drive    string
 	Tape     *vm.Tape
 	TM       *tape.TapeManager
@@ -89,8 +90,19 @@ func (e *VerifEnv) AddEntry(name string, typeflag byte, size int64, deleted bool
 	return e.addEntry(name, typeflag, size, deleted, linkname, true)
 }
 
+// AddForeignEntry is AddEntry for a member that a standard tar writer put on the tape in ustar format (no PAX records).
+func (e *VerifEnv) AddForeignEntry(name string, typeflag byte, size int64) *models.Header {
+	e.entryFormat = tar.FormatUSTAR
+	defer func() { e.entryFormat = tar.FormatUnknown }()
+	return e.addEntry(name, typeflag, size, false, "", true)
+}
+
 func (e *VerifEnv) addEntry(name string, typeflag byte, size int64, deleted bool, linkname string, insert bool) *models.Header {
 	start := e.Tape.Len
+	format := tar.FormatPAX
+	if e.entryFormat != tar.FormatUnknown {
+		format = e.entryFormat
+	}
 	// rows of non-empty regular files carry the uncompressed-size record the writer adds (reachable-state invariant)
 	pax := "{}"
 	paxMap := map[string]string{}
@@ -98,7 +110,10 @@ func (e *VerifEnv) addEntry(name string, typeflag byte, size int64, deleted bool
 		paxMap["STFS.UncompressedSize"] = strconv.Itoa(int(size))
 		pax = "{\"STFS.UncompressedSize\":\"" + strconv.Itoa(int(size)) + "\"}"
 	}
-	hdr := &tar.Header{Typeflag: typeflag, Name: name, Linkname: linkname, Size: size, Mode: 0o644, Format: tar.FormatPAX, PAXRecords: paxMap}
+	if format != tar.FormatPAX {
+		pax, paxMap = "{}", nil
+	}
+	hdr := &tar.Header{Typeflag: typeflag, Name: name, Linkname: linkname, Size: size, Mode: 0o644, Format: format, PAXRecords: paxMap}
 	var data []byte
 	if typeflag == tar.TypeReg && size > 0 && size <= 4096 {
 		data = make([]byte, size) // (larger contents are not tracked byte by byte: only their extent matters)
@@ -121,7 +136,7 @@ func (e *VerifEnv) addEntry(name string, typeflag byte, size int64, deleted bool
 	rs := int64(e.RS)
 	row := &models.Header{
 		Record: blocks / rs, Block: blocks % rs, Lastknownrecord: lastBlocks / rs, Lastknownblock: lastBlocks % rs,
-		Typeflag: int64(typeflag), Name: name, Linkname: linkname, Size: size, Mode: 0o644, Paxrecords: pax, Format: int64(tar.FormatPAX),
+		Typeflag: int64(typeflag), Name: name, Linkname: linkname, Size: size, Mode: 0o644, Paxrecords: pax, Format: int64(format),
 	}
 	if e.RelNames {
 		row.Name = strings.TrimPrefix(name, "/")
